@@ -43,6 +43,19 @@ class Config:
     # `ProgGen.shape` ("fold", "nest", "while", "licm", "hoist_if", "unroll_perm").  Empty = generator unchanged.
     loop_shapes: list[str] = field(default_factory=list)
     shape_weight: int = 3
+    # --- additions for C14 (all default to the previous behaviour and consume no randomness when off)
+    reuse_prob: float = 0.85        # probability that an operand is an existing value (else a fresh constant)
+    i1_arith: bool = False          # integer binary ops also on i1
+    safe_shifts: bool = False       # shift amounts are always fresh constants in [0, w]
+    negf: bool = False              # arith.negf
+    const_pairs: bool = False       # statements whose operands are all fresh (boundary) constants
+    fastmath_reassoc: bool = False  # (c1 op x) op c2 chains of addf/mulf carrying fastmath<reassoc>
+    cmpi_same: bool = False         # arith.cmpi with identical operands
+    select_const: bool = False      # i1 selects between constants / with a constant condition
+    cf_extras: bool = False         # cond_br with identical successors, pass-through blocks
+    observe_all: bool = False       # every value computed at the top level (and most values computed in
+                                    # scf bodies) is passed to an external function, so that it is observable
+    float_extremes: bool = False    # float constants near the overflow / underflow thresholds
 
 
 class ProgGen:
@@ -71,13 +84,33 @@ class ProgGen:
         if w == 1:
             return self.rng.choice([0, -1, 1]) if False else self.rng.choice([0, 1])
         if r < 0.35:
-            return self.rng.choice([0, 1, 2, 3, -1, -2, 5, 7])
+            return self.wrap(self.rng.choice([0, 1, 2, 3, -1, -2, 5, 7]), w)
         if r < 0.6:
-            return self.rng.choice([lo, lo + 1, hi, hi - 1, -1, 1 << (w - 2), w - 1, w])
+            return self.wrap(self.rng.choice([lo, lo + 1, hi, hi - 1, -1, 1 << (w - 2), w - 1, w]), w)
         return self.rng.randint(max(lo, -1000), min(hi, 1000)) if r < 0.85 else self.rng.randint(lo, hi)
+
+    def safe_shift_amount(self, t: str) -> int:
+        """a shift amount in [0, w] (w itself is the smallest undefined amount); for 64-bit types now
+        and then an amount with the top bit set: Python's `<<` refuses it at once (MemoryError) instead
+        of building a huge integer, which is what an interpreter-based folder has to survive"""
+        w = width(t)
+        if w == 64 and self.rng.random() < 0.1:
+            return self.rng.choice([-1, -(1 << 63)])
+        return self.wrap(self.rng.randrange(0, w + 1), w)
+
+    @staticmethod
+    def wrap(v: int, w: int) -> int:
+        """two's-complement representative of v in [-2^(w-1), 2^(w-1)) (identity for the boundary
+        values used above when w >= 8)"""
+        u = v % (1 << w)
+        return u - (1 << w) if u >> (w - 1) else u
 
     def float_const_text(self, t: str) -> str:
         r = self.rng.random()
+        if self.cfg.float_extremes and self.rng.random() < 0.15:
+            if t == "f32":
+                return self.rng.choice(["0x7F7FFFFF", "0xFF7FFFFF", "0x7F000000", "0x00000001", "0x80000001", "0x00800000", "0x7E967699", "0x0DA24260"])
+            return self.rng.choice(["0x7FEFFFFFFFFFFFFF", "0xFFEFFFFFFFFFFFFF", "0x7FE0000000000000", "0x0000000000000001", "0x8000000000000001", "0x0010000000000000", "0x7E37E43C8800759C", "0x01A56E1FC2F8F359"])
         if r < 0.5:
             v = self.rng.choice([0.0, -0.0, 1.0, -1.0, 0.5, 2.0, 3.0, 1.5, -2.5, 0.1, 100.0, 16777216.0, 1e10, 1e-3])
         elif r < 0.6:
@@ -92,10 +125,20 @@ class ProgGen:
             return f"0x{bits:0{8 if t == 'f32' else 16}X}"
         return s
 
+    def observe(self, new: dict[str, list[str]], old: dict[str, list[str]], lines: list[str], ind: str, prob: float) -> None:
+        """external calls on the values of `new` that are not in `old`"""
+        for t in sorted(k for k in new if not k.startswith("__")):
+            for v in new[t]:
+                if v in old.get(t, ()) or self.rng.random() >= prob:
+                    continue
+                name = f"ext_{t}"
+                self.ext_sigs[name] = t
+                lines.append(f"{ind}func.call @{name}({v}) : ({t}) -> ()")
+
     # ------------------------------------------------------------------ statements
     def pick(self, pool: dict[str, list[str]], t: str, lines: list[str], ind: str) -> str:
         vs = pool.get(t, [])
-        if vs and self.rng.random() < 0.85:
+        if vs and self.rng.random() < self.cfg.reuse_prob:
             return self.rng.choice(vs)
         return self.const(pool, t, lines, ind)
 
@@ -131,22 +174,103 @@ class ProgGen:
         if c.loop_shapes and depth < c.max_depth:
             for sh in c.loop_shapes:
                 kinds += ["shape:" + sh] * c.shape_weight
+        if c.negf and c.float_types:
+            kinds += ["negf"]
+        if c.const_pairs:
+            kinds += ["constpair"] * 3
+        if c.fastmath_reassoc and c.float_types:
+            kinds += ["reassoc"]
+        if c.cmpi_same:
+            kinds += ["cmpi_same"]
+        if c.select_const:
+            kinds += ["select_const"]
         k = self.rng.choice(kinds)
         if k.startswith("shape:"):
             self.shape(k[6:], pool, lines, ind, depth)
             return
         if k == "int":
-            t = self.rng.choice([x for x in c.int_types if x != "i1"] or c.int_types)
+            t = self.rng.choice(c.int_types if c.i1_arith else ([x for x in c.int_types if x != "i1"] or c.int_types))
             op = self.rng.choice(c.int_ops)
             a, b = self.pick(pool, t, lines, ind), self.pick(pool, t, lines, ind)
-            if op in ("shli", "shrsi", "shrui") and self.rng.random() < 0.8:
+            if op in ("shli", "shrsi", "shrui") and c.safe_shifts:
+                b = self.fresh("c")
+                lines.append(f"{ind}{b} = arith.constant {self.safe_shift_amount(t)} : {t}")
+            elif op in ("shli", "shrsi", "shrui") and self.rng.random() < 0.8:
                 b = self.fresh("c")
                 lines.append(f"{ind}{b} = arith.constant {self.rng.randrange(0, width(t))} : {t}")
             if op in ("divsi", "remsi", "divui", "remui", "floordivsi", "ceildivsi", "ceildivui") and self.rng.random() < 0.8:
                 b = self.fresh("c")
-                lines.append(f"{ind}{b} = arith.constant {self.rng.choice([1, 2, 3, -1, -2, 7, 5, -3])} : {t}")
+                lines.append(f"{ind}{b} = arith.constant {self.wrap(self.rng.choice([1, 2, 3, -1, -2, 7, 5, -3]), width(t))} : {t}")
             v = self.fresh()
             lines.append(f"{ind}{v} = arith.{op} {a}, {b} : {t}")
+            pool.setdefault(t, []).append(v)
+        elif k == "negf":
+            t = self.rng.choice(c.float_types)
+            a = self.pick(pool, t, lines, ind)
+            v = self.fresh()
+            lines.append(f"{ind}{v} = arith.negf {a} : {t}")
+            pool.setdefault(t, []).append(v)
+        elif k == "constpair":
+            # every operand is a fresh constant, so that constant folders fire on boundary values
+            if c.float_types and c.float_ops and self.rng.random() < 0.3:
+                t = self.rng.choice(c.float_types)
+                a, b = self.const(pool, t, lines, ind), self.const(pool, t, lines, ind)
+                v = self.fresh()
+                lines.append(f"{ind}{v} = arith.{self.rng.choice(c.float_ops)} {a}, {b} : {t}")
+                pool.setdefault(t, []).append(v)
+            elif self.rng.random() < 0.25:
+                t = self.rng.choice(c.int_types)
+                a, b = self.const(pool, t, lines, ind), self.const(pool, t, lines, ind)
+                v = self.fresh()
+                lines.append(f"{ind}{v} = arith.cmpi {self.rng.choice(c.cmpi_preds)}, {a}, {b} : {t}")
+                pool.setdefault("i1", []).append(v)
+            else:
+                t = self.rng.choice(c.int_types)
+                op = self.rng.choice(c.int_ops)
+                a, b = self.const(pool, t, lines, ind), self.const(pool, t, lines, ind)
+                if op in ("shli", "shrsi", "shrui"):
+                    b = self.fresh("c")
+                    lines.append(f"{ind}{b} = arith.constant {self.safe_shift_amount(t)} : {t}")
+                v = self.fresh()
+                lines.append(f"{ind}{v} = arith.{op} {a}, {b} : {t}")
+                pool.setdefault(t, []).append(v)
+        elif k == "reassoc":
+            t = self.rng.choice(c.float_types)
+            op = self.rng.choice(["addf", "mulf"])
+            x = self.pick(pool, t, lines, ind)
+            c1, c2 = self.const(pool, t, lines, ind), self.const(pool, t, lines, ind)
+            fm = lambda: " fastmath<reassoc>" if self.rng.random() < 0.85 else (" fastmath<fast>" if self.rng.random() < 0.5 else "")
+            v1, v2 = self.fresh(), self.fresh()
+            l1 = (c1, x) if self.rng.random() < 0.5 else (x, c1)
+            lines.append(f"{ind}{v1} = arith.{op} {l1[0]}, {l1[1]}{fm()} : {t}")
+            l2 = (v1, c2) if self.rng.random() < 0.5 else (c2, v1)
+            lines.append(f"{ind}{v2} = arith.{op} {l2[0]}, {l2[1]}{fm()} : {t}")
+            pool.setdefault(t, []).append(v2)
+            if self.rng.random() < 0.2:
+                pool.setdefault(t, []).append(v1)   # a second use of the inner result blocks the pattern
+        elif k == "cmpi_same":
+            t = self.rng.choice(c.int_types)
+            a = self.pick(pool, t, lines, ind)
+            v = self.fresh()
+            lines.append(f"{ind}{v} = arith.cmpi {self.rng.choice(c.cmpi_preds)}, {a}, {a} : {t}")
+            pool.setdefault("i1", []).append(v)
+        elif k == "select_const":
+            v = self.fresh()
+            r = self.rng.random()
+            if r < 0.5:
+                cnd = self.pick(pool, "i1", lines, ind)
+                a, b = self.const(pool, "i1", lines, ind), self.const(pool, "i1", lines, ind)
+                t = "i1"
+            elif r < 0.8:
+                t = self.rng.choice(c.int_types + c.float_types)
+                cnd = self.const(pool, "i1", lines, ind)
+                a, b = self.pick(pool, t, lines, ind), self.pick(pool, t, lines, ind)
+            else:
+                t = self.rng.choice(c.int_types + c.float_types)
+                cnd = self.pick(pool, "i1", lines, ind)
+                a = self.pick(pool, t, lines, ind)
+                b = a
+            lines.append(f"{ind}{v} = arith.select {cnd}, {a}, {b} : {t}")
             pool.setdefault(t, []).append(v)
         elif k == "cmpi":
             t = self.rng.choice(c.int_types)
@@ -226,6 +350,8 @@ class ProgGen:
                 p2 = {t: list(vs) for t, vs in pool.items()}
                 for _ in range(self.rng.randint(0, 3)):
                     self.stmt(p2, lines, ind + "  ", depth + 1)
+                if c.observe_all:
+                    self.observe(p2, pool, lines, ind + "  ", 0.6)
                 ys = [self.pick(p2, t, lines, ind + "  ") for t in tys]
                 if tys:
                     lines.append(f"{ind}  scf.yield " + ", ".join(ys) + " : " + ", ".join(tys))
@@ -259,8 +385,11 @@ class ProgGen:
             p2.setdefault("index", []).append(iv)
             for a, t in zip(accs, tys):
                 p2.setdefault(t, []).append(a)
+            p2_before = {t: list(vs) for t, vs in p2.items()}
             for _ in range(self.rng.randint(1, 4)):
                 self.stmt(p2, lines, ind + "  ", depth + 1)
+            if c.observe_all:
+                self.observe(p2, p2_before, lines, ind + "  ", 0.6)
             ys = [self.pick(p2, t, lines, ind + "  ") for t in tys]
             if tys:
                 lines.append(f"{ind}  scf.yield " + ", ".join(ys) + " : " + ", ".join(tys))
@@ -624,6 +753,35 @@ class ProgGen:
         lines.append(f"{bm}({m}: {t}):")
         pool.setdefault(t, []).append(m)
 
+    def cfg_same_succ(self, pool: dict[str, list[str]], lines: list[str]) -> None:
+        """cond_br whose two edges reach the same block (directly or through pass-through blocks)"""
+        c = self.cfg
+        cnd = self.pick(pool, "i1", lines, "  ")
+        t = self.rng.choice(c.int_types + c.float_types)
+        xa, xb = self.pick(pool, t, lines, "  "), self.pick(pool, t, lines, "  ")
+        bm = self.fresh_block()
+        shape = self.rng.randrange(3)
+        if shape == 0:
+            lines.append(f"  cf.cond_br {cnd}, {bm}({xa} : {t}), {bm}({xb} : {t})")
+        else:
+            b1, b2 = self.fresh_block(), self.fresh_block()
+            p1, p2 = self.fresh("ba"), self.fresh("ba")
+            lines.append(f"  cf.cond_br {cnd}, {b1}({xa} : {t}), {b2}({xb} : {t})")
+            lines.append(f"{b1}({p1}: {t}):")
+            lines.append(f"  cf.br {bm}({p1 if shape == 1 else xb} : {t})")
+            lines.append(f"{b2}({p2}: {t}):")
+            if shape == 2 and self.rng.random() < 0.5:
+                self.stmt({k: list(v) for k, v in pool.items()}, lines, "  ", 1)
+            lines.append(f"  cf.br {bm}({p2} : {t})")
+        m = self.fresh("ba")
+        lines.append(f"{bm}({m}: {t}):")
+        if self.rng.random() < 0.5:
+            # a use of the condition after the join (truth propagation must not touch it)
+            v = self.fresh()
+            lines.append(f"  {v} = arith.select {cnd}, {m}, {xa} : {t}")
+            pool.setdefault(t, []).append(v)
+        pool.setdefault(t, []).append(m)
+
     def cfg_loop(self, pool: dict[str, list[str]], lines: list[str]) -> None:
         c = self.cfg
         t = self.rng.choice([x for x in c.int_types if x != "i1"] + c.float_types)
@@ -710,12 +868,16 @@ class ProgGen:
         nst = self.rng.randint(2, c.max_stmts)
         for _ in range(nst):
             r = self.rng.random()
-            if c.cf and r < 0.12:
+            if c.cf and c.cf_extras and r < 0.06:
+                self.cfg_same_succ(pool, lines)
+            elif c.cf and r < 0.12:
                 self.cfg_diamond(pool, lines)
             elif c.cf and r < 0.22:
                 self.cfg_loop(pool, lines)
             else:
                 self.stmt(pool, lines, "  ", 0)
+        if c.observe_all:
+            self.observe(pool, {t: list(vs) for t, vs in zip(arg_tys, [[a] for a in args])}, lines, "  ", 1.0)
         ret_tys = [self.rng.choice(all_t) for _ in range(self.rng.randint(1, 3))]
         rets = [self.pick(pool, t, lines, "  ") for t in ret_tys]
         for v, t in self.force_returns[-4:]:     # only filled by C16 loop shapes (`loop_shapes` non-empty)
